@@ -247,10 +247,9 @@ impl AlternateTime {
         match self.std.ut_offset.cmp(&self.dst.ut_offset) {
             Ordering::Equal => Ok(crate::MappedLocalTime::Single(self.std)),
             Ordering::Less => {
-                // compare (month, day): both transitions may fall in the same month
-                if self.dst_start.transition_date(current_year)
-                    < self.dst_end.transition_date(current_year)
-                {
+                // compare the local transition times: both transitions may fall in the same month,
+                // and a transition time outside of [0h, 24h] may move one past the other
+                if dst_start_transition_start < dst_end_transition_start {
                     // northern hemisphere
                     // For the DST END transition, the `start` happens at a later timestamp than the `end`.
                     if local_time <= dst_start_transition_start {
@@ -293,10 +292,9 @@ impl AlternateTime {
                 }
             }
             Ordering::Greater => {
-                // compare (month, day): both transitions may fall in the same month
-                if self.dst_start.transition_date(current_year)
-                    < self.dst_end.transition_date(current_year)
-                {
+                // compare the local transition times: both transitions may fall in the same month,
+                // and a transition time outside of [0h, 24h] may move one past the other
+                if dst_start_transition_start < dst_end_transition_start {
                     // southern hemisphere reverse DST
                     // For the DST END transition, the `start` happens at a later timestamp than the `end`.
                     if local_time < dst_start_transition_end {
